@@ -194,8 +194,10 @@ class ConfWorld(DagLoopWorld):
 
 
 CONF_SHAPE = Shape("A-B, B-C", ["A", "B", "C"], [("A", "B"), ("B", "C")], False)
+STAR_TAIL = Shape("star with a tail A-B, A-C, C-D", ["A", "B", "C", "D"], [("A", "B"), ("A", "C"), ("C", "D")], False)
 TRIANGLE = Shape("triangle A-B-C", ["A", "B", "C"], [("A", "B"), ("B", "C"), ("A", "C")], False)
-PARTITIONS = {"uniform": ("x", "x", "x"), "A|BC": ("x", "y", "y"), "AB|C": ("x", "x", "y"), "AC|B": ("x", "y", "x"), "A|B|C": ("x", "y", "z")}
+PARTITIONS = {"uniform": ("x", "x", "x", "x"), "A|BC": ("x", "y", "y", "x"), "AB|C": ("x", "x", "y", "y"), "AC|B": ("x", "y", "x", "y"),
+              "A|B|C": ("x", "y", "z", "x")}
 
 
 def _seeds(shape, patterns=None):
@@ -260,6 +262,8 @@ def check_conformity(repo: Repo, rep: Report, tier="quick"):
         vals = PARTITIONS[part]
         names = {"x": "x", "y": "y", "z": "z"} if not rename else {"x": "y", "y": "z", "z": "x"}
         sent = {v: SentinelV("label:" + names[v]) for v in set(vals)}
+        if rename:
+            sent["x"].falsy = True          # renaming may also pick a falsy value (0, '' are legal labels)
         labels = {n: sent[v] for n, v in zip(shape.nodes, vals)}
 
         def once(ch):
@@ -285,7 +289,8 @@ def check_conformity(repo: Repo, rep: Report, tier="quick"):
             raise Unsupported(None, "delta_conformity depends on facts outside the valuation: %s" % [sorted(c, key=str)[-1] for c, _ in res][:2])
         return res[0][1]
 
-    shapes = [(CONF_SHAPE, None)] + ([(TRIANGLE, [(), (1,), (2, 4), (1, 2, 4)])] if tier != "quick" else [])
+    shapes = [(CONF_SHAPE, None), (STAR_TAIL, [(1,), (2,), (1, 2)] if tier == "quick" else [(), (1,), (2,), (1, 2), (2, 4)])] + (
+        [(TRIANGLE, [(), (1,), (2, 4), (1, 2, 4)])] if tier != "quick" else [])
     path_types = ("shortest",) if tier == "quick" else ("shortest", "fastest", "foremost", "fastest_shortest", "shortest_fastest")
     for shape, patterns in shapes:
         keys = sorted({shape.key(*e) for e in shape.edges}, key=str)
@@ -339,8 +344,8 @@ def check_conformity(repo: Repo, rep: Report, tier="quick"):
                                     if abs(s - want) > 1e-9:
                                         add(construct, "uniform-labels", "all nodes share one label: %s %s another node inside the window but its score for "
                                             "alpha=%s is %r (expected %s)" % (n, "reaches" if reaches else "reaches no", a, s, want), wit)
-                        # renaming the label values
-                        if part == "uniform" and tier == "quick":
+                        # renaming the label values (quick tier: on the widest window only)
+                        if tier == "quick" and (start, delta) != (1, 3):
                             continue
                         w2, val2, r2 = run(shape, seed, part, start, delta, path_type, rename=True)
                         sc2 = _scores(val2) if r2 is None else "raised"
